@@ -1247,6 +1247,13 @@ impl TransactionalMemory {
 
     // True when a non-durable commit has been made visible to readers but not yet flushed to the
     // durable primary slot.
+    // Writes out and syncs all buffered pages, without committing anything. No writable page
+    // may be outstanding.
+    pub(crate) fn flush_buffered_pages(&self) -> Result {
+        self.debug_assert_no_dirty_pages();
+        self.storage.flush()
+    }
+
     pub(crate) fn pending_non_durable_commit(&self) -> bool {
         self.state.lock().unwrap().read_from_secondary
     }
